@@ -152,7 +152,9 @@ def compare_dumps(exp, got, mod):
                     "start: text describes function %s, binary has %s" % (exp.get("start"), got.get("start"))))
     ea = sorted((exp.get("exports") or "-").split(";"))
     ga = sorted((got.get("exports") or "-").split(";"))
-    if ea != ga:
+    if ea != ga and any(f["name"] is None and f["export"] is not None for f in mod.funcs):
+        out.append(("export:inline-export-of-unnamed-func", "exports: text describes %s, binary has %s" % (exp.get("exports"), got.get("exports"))))
+    elif ea != ga:
         out.append(("exports:differ", "exports: text describes %s, binary has %s" % (exp.get("exports"), got.get("exports"))))
     # name section
     if exp.get("names.module") != got.get("names.module"):
@@ -170,6 +172,13 @@ def compare_dumps(exp, got, mod):
         problems.append(("names:empty-name-for-unnamed", "entries with an empty name for items the text leaves unnamed: func=%s local=%s" % (gf, got.get("names.local"))))
     if gf not in (None, "-") and not strict_inc([int(x.split(":")[0]) for x in gf.split(",")]):
         problems.append(("names:function-indices-not-increasing", "function names %s" % gf))
+    ed = dict(el)
+    for f, inner in gl:
+        want = ed.get(f)
+        if want is not None and [n for _, n in inner] == [n for _, n in want] and inner != want and \
+                not any(k == "names:local-index-restarts-after-params" for k, _ in problems):
+            problems.append(("names:local-index-restarts-after-params",
+                             "function %d: the text describes local names %s, the binary has %s (locals numbered from 0 instead of after the parameters)" % (f, want, inner)))
     if not problems and (exp.get("names.local") != got.get("names.local") or exp.get("names.func") != gf):
         problems.append(("names:other", "name section: text describes func=%s local=%s, binary has func=%s local=%s" % (
             exp.get("names.func"), exp.get("names.local"), gf, got.get("names.local"))))
@@ -177,7 +186,9 @@ def compare_dumps(exp, got, mod):
     return out
 
 
-def asm_cause(msg):
+def asm_cause(msg, text=b""):
+    if re.search(rb"\$\d", text or b"") and ("out of range" in msg or "unknown" in msg or "invalid local index" in msg or "invalid" in msg):
+        return "ident:digit-prefix-treated-as-index"
     if "typed_select" in msg:
         return "select-typed:vector-length-missing"
     if "invalid start function" in msg:
@@ -277,7 +288,14 @@ def run(ctx):
                 dist.setdefault("outside_subset", {})
                 dist["outside_subset"][c] = dist["outside_subset"].get(c, 0) + 1
         elif r["st"] in ("asm-error", "asm-panic"):
-            viol(r, asm_cause(r["detail"]), "Wat2Wasm fails on a text the parser accepts: %s" % r["detail"])
+            c = asm_cause(r["detail"], r["text"])
+            by_construction = r["meta"]["stream"] in ("fixed", "generated") or r["meta"]["stream"].startswith("trigger:")
+            if by_construction or r["st"] == "asm-panic" or not c.startswith("asm-error:"):
+                viol(r, c, "Wat2Wasm fails on a text the parser accepts: %s" % r["detail"])
+            else:
+                # a repo / compiler text of unknown validity rejected by the assembler's own validator
+                dist.setdefault("rejected_unknown_validity", {})
+                dist["rejected_unknown_validity"][r["label"]] = r["detail"][:120]
 
     # ---------------------------------------------------------------- decode every binary with the Lean codec; V8
     oks = [r for r in recs if r["st"] == "ok"]
